@@ -104,7 +104,7 @@ func c01GenOps(rng *rand.Rand, P, M, nops int, withTruncate bool) []vfOp {
 		case x < 76:
 			ops = append(ops, vfOp{K: "readat", Off: off, N: n})
 		case x < 86:
-			ops = append(ops, vfOp{K: "writeto"})
+			ops = append(ops, vfOp{K: "writeto", A: int64(rng.IntN(2))}) // A=1: a sink the scheduler paces
 		case x < 96 || !withTruncate:
 			wh := rng.IntN(3)
 			o := off
@@ -184,7 +184,7 @@ func c01Gen(class string, seed uint64, tier string) *vfScenario {
 			}
 		}
 		if len(ro) == 0 {
-			ro = []vfOp{{K: "readat", Off: 0, N: vfBoundary(rng, P, M) + 1}, {K: "writeto"}}
+			ro = []vfOp{{K: "readat", Off: 0, N: vfBoundary(rng, P, M) + 1}, {K: "writeto", A: int64(rng.IntN(2))}}
 		}
 		sc.Ops = ro
 	}
